@@ -29,6 +29,10 @@ FIELD_TYPES = {
     "_cluster": "ClusterMetadata",
     "cluster": "ClusterMetadata",
     "_rebalance": "CoordinatorGroupRebalance",
+    "rebalance": "CoordinatorGroupRebalance",
+    "conn": "AIOKafkaConnection",
+    "bootstrap_conn": "AIOKafkaConnection",
+    "_coordinator_obj": "GroupCoordinator",
 }
 
 
